@@ -699,10 +699,34 @@ def first_lines(yielded, X, start):
     return forall_range(0, len(yielded), lambda k: yielded[k] == X[start + k])
 
 
+def t_ok(t):
+    """what each transformer requires of its parameters (established where the transformers are constructed:
+    'constructed-with-the-parameters-it-requires' of _SingleRangeSourceConstructor.visit_*)"""
+    if isinstance(t, T._SingleNonNegIntTransformer):
+        return t._zero_based_line_num >= 0
+    if isinstance(t, T._SingleNegIntTransformer):
+        return t._neg_line_num < 0 and t._pocket_size == -t._neg_line_num
+    if isinstance(t, T._UpperNonNegLimitTransformer):
+        return t._zero_based_upper_limit >= 0
+    if isinstance(t, (T._UpperNegLimitTransformer, T._LowerNegLimitTransformer)):
+        return t._neg_line_num < 0
+    if isinstance(t, T._LowerNonNegLimitTransformer):
+        return t._zero_based_lower_limit >= 0
+    if isinstance(t, T._LowerNonNegUpperNonNegTransformer):
+        return 0 <= t._zero_based_lower_limit and t._zero_based_lower_limit <= t._zero_based_upper_limit
+    if isinstance(t, T._LowerNonNegUpperNegTransformer):
+        return t._zero_based_lower_limit >= 0 and t._neg_upper_limit < 0
+    if isinstance(t, T._LowerNegUpperNonNegTransformer):
+        return t._neg_lower_limit < 0 and t._zero_based_upper_limit >= 0
+    if isinstance(t, T._LowerNegUpperNegTransformer):
+        return t._neg_lower_limit <= t._neg_upper_limit and t._neg_upper_limit < 0
+    raise ValueError('not a single-range transformer')
+
+
 def _transformer(cls, requires, loops, **fields):
     """contract of cls.transform + its loop invariants"""
     q = '%s:%s.transform' % (P_SRC, cls.__name__)
-    M.contract(q, params=dict(self=Inst(cls, _invariant=requires, **fields), lines=LINES), yields=ListOf(Str),
+    M.contract(q, params=dict(self=Inst(cls, _invariant=t_ok, **fields), lines=LINES), yields=ListOf(Str),
                ensures={'exactly-the-lines-of-the-window-in-order': lambda self, lines, yielded:
                yields_window(self, lines.xs, yielded)}, raises_only=())
     for ordinal, (inv, mod) in enumerate(loops):
@@ -754,8 +778,7 @@ _transformer(T._LowerNonNegUpperNonNegTransformer,
                dict(line='local', yielded='len'))],
              _zero_based_lower_limit=Int, _zero_based_upper_limit=Int)
 
-_LNUN = Inst(T._LowerNonNegUpperNegTransformer,
-             _invariant=lambda self: self._zero_based_lower_limit >= 0 and self._neg_upper_limit < 0,
+_LNUN = Inst(T._LowerNonNegUpperNegTransformer, _invariant=t_ok,
              _zero_based_lower_limit=Int, _neg_upper_limit=Int)
 
 M.contract(P_SRC + ':_LowerNonNegUpperNegTransformer._forward_pocket_to_lower_limit',
@@ -814,3 +837,63 @@ _transformer(T._LowerNegUpperNegTransformer,
                   and len(yielded) == _i and first_lines(yielded, pocket, 0),
                   dict(num_to_produce=Int, line='local', yielded='len')),
              ], _neg_lower_limit=Int, _neg_upper_limit=Int)
+
+# ------------------------------------------------------------------------------ a single range: which transformer
+# `_SingleRangeSourceConstructor.visit_*` choose the transformer and convert the written (1-based) numbers to its
+# parameters.  The result is a real string source object (the constructors of sources.py are interpreted); its
+# lines transformer is read off it: result.contents()._transformer, or none for the empty source.
+from exactly_lib.impls.types.string_transformer.impl.filter.line_nums import transformers  # noqa: E402
+
+SOURCE_CONSTRUCTOR = Inst(transformers._SingleRangeSourceConstructor,
+                          _source_model=Any_, _transformer_description=Any_, _mem_buff_size=Any_)
+
+
+def lines_transformer_of(source):
+    """the lines transformer of a string source made by sources.py; None for the empty source"""
+    c = source.contents()
+    if isinstance(c, T._EmptyContents):
+        return None
+    return c._transformer
+
+
+def transformed_source_of(source):
+    c = source.contents()
+    return c._transformed if isinstance(c, T._EmptyContents) else c._source
+
+
+def src_mem(source, N, n):
+    """line n of a text of N lines is in the output of the string source (via its lines transformer)"""
+    t = lines_transformer_of(source)
+    return False if t is None else T_mem(t, N, n)
+
+
+def src_ok(source):
+    t = lines_transformer_of(source)
+    return True if t is None else t_ok(t)
+
+
+for _method, _shape, _cls in _RANGE_FORMS:
+    M.contract('%s:_SingleRangeSourceConstructor.%s' % (P_TR, _method),
+               params=dict(self=SOURCE_CONSTRUCTOR, x=_shape), ghosts=dict(n=Int, N=Nat),
+               ensures={
+                   # n: an arbitrary line number, N: the number of lines of an arbitrary text
+                   'selects-exactly-the-lines-of-the-range': lambda x, n, N, result:
+                   iff(src_mem(result, N, n), S(x, N, n)),
+                   'constructed-with-the-parameters-it-requires': lambda result: src_ok(result),
+                   'transforms-the-given-source': lambda self, result:
+                   transformed_source_of(result) is self._source_model,
+               }, raises_only=())
+
+for _helper, _req in (
+        ('_lower_and_upper__non_neg', lambda lower, upper: lower >= 0 and upper > 0),
+        ('_lower_and_upper__neg', lambda lower, upper: lower < 0 and upper < 0),
+        ('_lower_non_neg__upper_neg', lambda lower, upper: lower >= 0 and upper < 0),
+        ('_lower_neg__upper_non_neg', lambda lower, upper: lower < 0 and upper > 0)):
+    M.contract('%s:_SingleRangeSourceConstructor.%s' % (P_TR, _helper),
+               params=dict(self=SOURCE_CONSTRUCTOR, lower=Int, upper=Int), ghosts=dict(n=Int, N=Nat), inline=True,
+               requires=_req,      # the four cases of visit_lower_and_upper_limit (upper == 0 is handled before)
+               ensures={
+                   'selects-exactly-the-lines-of-the-range': lambda lower, upper, n, N, result:
+                   iff(src_mem(result, N, n), S_of(K_LOWER_UPPER, lower, upper, N, n)),
+                   'constructed-with-the-parameters-it-requires': lambda result: src_ok(result),
+               }, raises_only=())
